@@ -109,6 +109,21 @@ def checkAssign (fs : Frames) (n : String) (declares : Bool) : Verdict :=
       | some b => if b.isMutable then .accepted else .mutationWithoutMut
       | none => .accepted
 
+/-- `require_mutable_root` (mod.rs): a mutation *through* `n` — `n.f = v`, `n[i] = v`, `n.bump()` with a `mut self`
+method — looks `n` up through every enclosing block; the variable of a `for` loop is exempt (its elements are
+written through a mutable iteration). -/
+def checkMutateThrough (fs : Frames) (loopVars : List String) (n : String) : Verdict :=
+  if loopVars.contains n then .accepted
+  else match lookupInFunction fs n with
+    | some b => if b.isMutable then .accepted else .mutationWithoutMut
+    | none => .accepted
+
+/-- The variant a refactoring could introduce: only the innermost block is searched. -/
+def checkMutateThroughLocal (fs : Frames) (n : String) : Verdict :=
+  match lookupLocal fs n with
+  | some b => if b.isMutable then .accepted else .mutationWithoutMut
+  | none => .accepted
+
 /-- The checker before the fix: only the innermost block was searched. -/
 def checkAssignOld (fs : Frames) (n : String) : Verdict :=
   match lookupLocal fs n with
